@@ -80,6 +80,66 @@ def k19_match(ctx, pid: str):
     ctx.report.ob("K19.own-structure", gr.qualname, ok, "the pattern must be compiled from cls.structure(): %r" % (srcs,), gr.where())
 
 
+def k21_match_overrides(ctx, pid: str):
+    """AbstractModule._match / AbstractVector._match (and any override on the
+    MRO of a kit class): the only ways out are the structure search's own
+    verdict (super()._match), the illegal-site screen on the digest of the
+    match, or returning that very match.  A rejection computed from the linear
+    sequence (or anything else) makes acceptance depend on where the origin is."""
+    p = ctx.program
+    r = ctx.report
+    sr = p.get_class("moclo.core._structured.StructuredRecord")
+    base_match = sr.attrs.get("_match")
+    seen, funcs = set(), []
+    for kc in ctx.inventory:
+        for c in p.mro(kc.ci):
+            if isinstance(c, ClassInfo):
+                raw = c.attrs.get("_match")
+                if isinstance(raw, FuncInfo) and raw is not base_match and id(raw) not in seen:
+                    seen.add(id(raw))
+                    funcs.append((c, raw))
+    sm_cls = p.get_class("moclo.regex.SeqMatch")
+    for owner, fi in funcs:
+        def base_hook(I, f, args, kwargs):
+            I.path.effects.append(("super-match",))
+            if I.path.choose("structure", ["found", "none"]) == "none":
+                raise RaiseSig(AExc(p.get_class("moclo.errors.InvalidSequence"), [Term("record")], {}))
+            rec = args[0].attrs["record"]
+            rm = AReMatch(ASeq("str", rec.pieces + rec.pieces), _spans())
+            I.the_match = AObj(sm_cls, {"match": rm, "rec": rec, "shift": 0}, name="the-match")
+            return I.the_match
+
+        hooks = dict(FRAG_HOOKS)
+        hooks[base_match.qualname] = base_hook
+
+        def make_args(I, owner=owner):
+            rec = circ_record("W:x", ident="x")
+            obj = AObj(owner, {"record": rec, "seq": ASeq("Seq", rec.pieces), "cutter": AEnzymeV(True)}, name="x")
+            return (obj,), {}
+
+        def post(I, o, fi=fi):
+            name = fi.qualname
+            found = ("structure", "found") in o.path.choices
+            asked = any(e[0] == "super-match" for e in o.path.effects)
+            if not asked:
+                return [("K21.match-override", name, False, "the verdict does not come from the structure search (super()._match is not consulted): %r" % (o,))]
+            if not found:
+                return [("K21.match-override", name, o.kind == "raise" and _is_exc(p, o.value, "moclo.errors.InvalidSequence"),
+                         "no structure match must surface as the search's InvalidSequence, got %r" % (o,))]
+            screened = [t for t, v in o.path.choices if t.startswith("arith len(fragments")]
+            if o.kind == "raise":
+                ok = bool(screened) and _is_exc(p, o.value, "moclo.errors.InvalidSequence")
+                return [("K21.match-override", name, ok,
+                         "a record whose structure was found is rejected by something other than the illegal-site screen on the digest of the match (%s): acceptance no longer depends on the circular match only"
+                         % ([t for t, v in o.path.choices if not t.startswith("spec ")],))]
+            return [("K21.match-override", name, o.kind == "return" and o.value is getattr(I, "the_match", None),
+                     "an accepted record must return the match found by the structure search itself, got %r" % (o,))]
+
+        pre = [t for t in []]
+        emit(ctx, run_paths(ctx, fi, make_args, match_facts(), hooks=hooks, post=post), fi.where())
+    r.floor("K21.match-override", 4)
+
+
 # ---------------------------------------------------------------------------
 # order independence (C03.4)
 
